@@ -120,6 +120,18 @@ def check_case(rec, case):
         o = call(ra.regexp_to_nfa, r)
         if not o.ok:
             report_failure(rec, o, 'regexp_to_nfa', regexp=rx.show(t))
+        # the same expression OBJECT converted again after one of its nodes was changed in place, and an expression built
+        # from SHARED sub-expression objects (dfa_to_regexp returns such DAGs): judged against the content at call time
+        import gambatools.regexp as gr
+        if isinstance(r, (gr.Sum, gr.Concat)) and case['cls'].startswith('random'):
+            r.left, r.right = r.right, gr.Iteration(r.left)
+            o = call(ra.regexp_to_nfa, r)
+            if not o.ok:
+                report_failure(rec, o, 'regexp_to_nfa', regexp=rx.show(adapt.rx_ref(r)), after_in_place_change=True)
+            shared = gr.Sum(gr.Concat(r, r), gr.Iteration(r.left))
+            o = call(ra.regexp_to_nfa, shared)
+            if not o.ok:
+                report_failure(rec, o, 'regexp_to_nfa', regexp=rx.show(adapt.rx_ref(shared)), shared_subexpressions=True)
         return
     R = case['ref']
     rec.note_case(case, case['cls'], len(R[4]) > 0 and fa.mn_count(R, sorted(fa.reachable(R))) > 1)
@@ -133,6 +145,13 @@ def check_case(rec, case):
     _CUR.clear()
     if not o.ok:
         report_failure(rec, o, 'dfa_to_regexp', dfa=R)
+    if len(R[0]) >= 2 and case['cls'].startswith('random') and common.mutate_in_place(D, repr(R)):
+        # the same DFA object after an in-place change
+        o = call(ra.dfa_to_regexp, D)
+        _CUR.clear()
+        rec.counters['requery_after_in_place_change'] += 1
+        if not o.ok:
+            report_failure(rec, o, 'dfa_to_regexp', dfa=adapt.dfa_ref(D), after_in_place_change=True)
 
 
 def gen_cases(rec, rng, tier):
